@@ -25,7 +25,7 @@ META = {
                   "parameters and values (unbounded ints for ranges, strings <= 4, literal tables for booleans/base64/dictionary keys, 12 types x 7 "
                   "reference configurations) and every syntax regex for ALL strings (regex inclusion); (b) every one of ~1350 property slots of "
                   "every class of both registries and embedded types: the live Property instance is introspected and its accept-set compared with "
-                  "a frozen specification model by z3 (exists v. impl(v) and not spec(v)); (c) co-constraints of 12 classes and the three helper "
+                  "a frozen specification model by z3 (exists v. impl(v) and not spec(v)); (c) co-constraints of 28 classes/embedded types and the three helper "
                   "methods on directly built instances with symbolic presence flags and integer instants against predicates written from the "
                   "specification sentences; (d) the constructor engine on a synthetic class with symbolic presence/values (required, extra, "
                   "None/[] never stored, falsy values kept, clean failures, fixed values, has_custom, both encoders); (e) TLP instances; "
@@ -54,10 +54,12 @@ def obligations(tier):
               ("cc_file", "cc_file", FC[4:5], "presence of hashes/name, both versions"),
               ("cc_network_traffic", "cc_network_traffic", FC[5:6], "presence flags, unbounded int instants, is_active"),
               ("cc_location", "cc_location", FC[6:7], "presence flags, latitude -90..90, precision 0..5 (incl. 0)"),
-              ("cc_ordered_times", "cc_ordered_times", FC[8:12], "6 classes, presence flags, unbounded int instants"),
+              ("cc_ordered_times", "cc_ordered_times", FC[8:12], "8 classes (incl. strict stop_time > start_time), presence flags, unbounded int instants"),
               ("cc_observed_data", "cc_observed_data", FC[7:8], "objects/object_refs presence, unbounded int instants and count"),
               ("cc_malware_family", "cc_malware_family", FC[8:9], "name presence x is_family"),
               ("cc_email_message", "cc_email_message", FC[12:13], "is_multipart x body x body_multipart, both versions"),
+              ("cc_presence_table", "cc_presence", FC[:3], "14 classes/embedded types with presence-only constraints x every presence vector (<= 5 flags, falsy values used)"),
+              ("cc_marking_definition_21", "cc_marking_definition", FC[13:], "definition_type / definition / extensions presence"),
               ("cc_helper_methods", "cc_helpers", FC[:3], "presence vector of 3 properties holding falsy values, at_least_one flag")]
     obls = [CH(n, H, f, t, functions=fn, stubs=[FMT], bounds=b) for n, f, fn, b in simple]
     obls += [
